@@ -3,7 +3,7 @@
    connection, final cache); check_case re-runs the model and compares. *)
 From Coq Require Import ZArith NArith Bool List Arith.
 Import ListNotations.
-Require Import FV.Base.Util FV.Base.F64 FV.Base.PyVal FV.C01.Model FV.Gen.C05 FV.C05.Model.
+Require Import FV.Base.Util FV.Base.F64 FV.Base.PyVal FV.C01.Model FV.Gen.C05 FV.C05.Model FV.C05.ModelCb.
 
 Record case := {
   k_general : Z;                                         (* generalConfig.omit_unchanged_within, ticks *)
@@ -19,6 +19,9 @@ Record case := {
   k_threaded : bool;
   k_msgs : list (list msg);                              (* per connection, snapshot included, oldest first *)
   k_final : list (pyval * option (str * str * str) * Z); (* value, (class, SECoP name, text), timestamp *)
+  k_regs : list reg;                                     (* addCallback / registerCallbacks calls, in order *)
+  k_cbobs : list (list cbkind);                          (* per parameter: what paramCallbacks holds after them *)
+  k_cbs : list (list cbs);                               (* per thread, per job: the scripts of the callbacks *)
 }.
 
 Definition mk_config (c : case) : config :=
@@ -29,6 +32,12 @@ Definition src_flags : flags :=
   {| f_locked := announce_in_updateLock; f_reg_first := activate_registers_first;
      f_snap_locked := snapshot_in_updateLock; f_private := broadcast_iterates_private_copy |}.
 Definition job_ops (js : list job) : list op := flat_map (fun j => match j with JOp o => [o] | JConn _ _ => [] end) js.
+(* the operations of all threads with the scripts of their callbacks *)
+Fixpoint zip_progs (ps : list (list job)) (cs : list (list cbs)) : list (op * cbs) :=
+  match ps with
+  | [] => []
+  | js :: r => zip_cbs js (hd [] cs) ++ zip_progs r (tl cs)
+  end.
 
 Definition payload_eqb (a b : payload) : bool :=
   match a, b with
@@ -61,7 +70,16 @@ Definition model_run (c : case) : state * bool :=
   if k_threaded c then
     let r := crun G src_flags (cinit (state0 c) (subs0 G) (k_progs c)) (k_sched c) in
     (cs_st r, cs_ok r && quiescent r)
-  else (run G (state0 c) (job_ops (concat (k_progs c))), true).
+  else (run_cb G callback_except_class (state0 c) (zip_progs (k_progs c) (k_cbs c)), true).
+
+(* the registrations the model derives are the ones the implementation holds; every script has the shape they
+   dictate; threaded cases carry only callbacks that return or raise (no effect in the model: step_cb_flat) *)
+Definition cbs_ok (c : case) : bool :=
+  let G := mk_config c in
+  let R := callbacks_of G (k_regs c) in
+  list_eqb (list_eqb cbkind_eqb) (map R (seq 0 (length (g_params G)))) (k_cbobs c)
+  && forallb (fun oc => cbs_wf R (R (o_p (fst oc))) (snd oc) && (negb (k_threaded c) || cbs_flat (snd oc)))
+       (zip_progs (k_progs c) (k_cbs c)).
 
 Fixpoint conns_ok (s : state) (k : nat) (ms : list (list msg)) : bool :=
   match ms with
@@ -84,7 +102,7 @@ Fixpoint mods_sorted (ps : list pcfg) : bool :=
 Definition check_case (c : case) : bool :=
   let G := mk_config c in
   let '(s, ok) := model_run c in
-  ok && omit_ok c && mods_sorted (g_params G) && forallb (fun P => Nat.ltb (p_mod P) (g_nmods G)) (g_params G)
+  ok && omit_ok c && cbs_ok c && mods_sorted (g_params G) && forallb (fun P => Nat.ltb (p_mod P) (g_nmods G)) (g_params G)
   && Nat.eqb (length (k_msgs c)) (length (k_conns c))
   && conns_ok s 0 (k_msgs c)
   && list_eqb final_eqb (map (final_of G (s_heap s)) (s_cells s)) (k_final c).
